@@ -962,7 +962,7 @@ fn c16_build(cfg: &[u16]) -> Built {
 fn c16_owns(d: &Disc, out: &StepOut, _t: &Trace) -> bool {
     match d {
         Disc::Missing { line, .. } | Disc::Extra { line, .. } if line[0] == "S" => {
-            ["324", "322", "254", "331", "332", "403", "405", "329"].contains(&line[1].as_str())
+            ["324", "322", "254", "331", "332", "403", "405", "329", "367", "348", "346"].contains(&line[1].as_str())
                 || (line[1] == "353" && out.ctx == "JOIN")
         }
         Disc::AnyOf { set, .. } => set.iter().any(|l| l[1] == "405") && set.len() == 1,
